@@ -26,6 +26,7 @@ import (
 	"sync/atomic"
 	"unsafe"
 
+	"github.com/dgraph-io/badger/v4/vhook"
 	"github.com/dgraph-io/badger/v4/y"
 	"github.com/dgraph-io/ristretto/v2/z"
 )
@@ -155,6 +156,11 @@ func (s *node) casNextOffset(h int, old, val uint32) bool {
 //}
 
 func (s *Skiplist) randomHeight() int {
+	if vhook.On {
+		if h, ok := vhook.SkipHeight(); ok && h >= 1 && h <= maxHeight {
+			return h
+		}
+	}
 	h := 1
 	for h < maxHeight && z.FastRand() <= heightIncrease {
 		h++
